@@ -73,6 +73,7 @@ type Action struct {
 	ID    string `json:"id,omitempty"`
 	Which string `json:"which,omitempty"`
 	Reset bool   `json:"reset,omitempty"`
+	Pre   bool   `json:"pre,omitempty"` // use a connection made earlier instead of dialling
 	B     []byte `json:"b,omitempty"`
 	Ms    int    `json:"ms,omitempty"`
 }
@@ -177,7 +178,8 @@ type sim struct {
 	probes     map[string]int64
 	nontrivial bool
 	logBuf     *lockedBuf
-	holdC      bool // hold handlers at the first write of a /c answer
+	pre        []*client // connections made (TLS handshake done) but not yet used for a request
+	holdC      bool      // hold handlers at the first write of a /c answer
 	wparks     []*wpark
 }
 
@@ -593,7 +595,33 @@ func (s *sim) doStop() {
 	for _, c := range s.clients {
 		c.closeConn(false)
 	}
+	s.pre = nil
 	s.settle()
+	if b.act.OneShell && b.goneFull > 0 {
+		// the one shell has come and gone and every client has left: the server
+		// finishes by itself, with the sentinel main takes for success
+		for i := 0; i < 24; i++ {
+			s.mu.Lock()
+			done := b.doRet
+			s.mu.Unlock()
+			if done {
+				break
+			}
+			s.sleep(500 * time.Millisecond)
+		}
+		s.mu.Lock()
+		done, derr := b.doRet, b.doErr
+		s.mu.Unlock()
+		if !done {
+			s.violate("C12", "exits-after-shell", "server does not finish after the one shell ended",
+				"-one-shell: the shell has gone and every client connection is closed, but 12 simulated seconds later Server.Do has not returned")
+		} else if derr != hsrv.ErrOneShellClosed {
+			s.violate("C12", "exits-after-shell", "server finishes with an error other than the one-shell sentinel",
+				"Server.Do returned %v; main treats only ErrOneShellClosed as success", derr)
+		} else {
+			s.probes["one_shell_finished_by_itself"]++
+		}
+	}
 	b.cancel()
 	b.stopped = true
 	for i := 0; i < 200; i++ {
